@@ -1,11 +1,13 @@
 // C10 third extractor: setRotation / rotationMatrix with normalized / setRotationInternal opaque (module C10Rot).
 #include "sym.h"
+#include "c10frac.h" // FracS: the callees at exact fractions (rattv), before any Imath header
 #include "shapes.h"
 #include "main.h"
 #include <ImathMatrixAlgo.h>
 #include "c10priv.h"
 C10_STEAL (double)
 C10_STEAL (float)
+C10_STEAL (symns::FracS)
 // explicit specialisations for T = Sym: opaque CALL nodes of the Gen definitions extracted by sym_c10.cpp
 IMATH_INTERNAL_NAMESPACE_HEADER_ENTER
 template <> inline Vec3<symns::Sym> Vec3<symns::Sym>::normalized () const IMATH_NOEXCEPT
@@ -31,6 +33,102 @@ template <class T> static std::vector<T> nativeSRI (const std::vector<T>& a)
 }
 static int native_c10c = (symns::natives ()["C10.V3.normalized"] = symns::Native{&nativeNormalized<double>, &nativeNormalized<float>},
                           symns::natives ()["C10.Quat.setRotationInternal"] = symns::Native{&nativeSRI<double>, &nativeSRI<float>}, 0);
+// the REAL Vec3::normalized / Quat::setRotationInternal at exact fractions with the fixed stubs (c10frac.h): troute.lean_tv then
+// validates the emitted text of setRotationMod / rotationMatrixMod instead of skipping them
+static std::vector<symns::Frac> fracNormalized (const std::vector<symns::Frac>& a)
+{
+    return symns::fracRun ([&] {
+        using symns::FracS;
+        IMATH_INTERNAL_NAMESPACE::Vec3<FracS> v (a[0], a[1], a[2]), r = v.normalized ();
+        return std::vector<FracS>{r.x, r.y, r.z};
+    });
+}
+static std::vector<symns::Frac> fracSRI (const std::vector<symns::Frac>& a)
+{
+    return symns::fracRun ([&] {
+        using symns::FracS;
+        IMATH_INTERNAL_NAMESPACE::Vec3<FracS> f (a[0], a[1], a[2]), t (a[3], a[4], a[5]);
+        IMATH_INTERNAL_NAMESPACE::Quat<FracS> me, q;
+        (me.*c10priv::Tag<FracS>::ptr) (f, t, q);
+        return std::vector<FracS>{q.r, q.v.x, q.v.y, q.v.z};
+    });
+}
+static int native_c10c_q = (symns::natives ()["C10.V3.normalized"].q = &fracNormalized, symns::natives ()["C10.Quat.setRotationInternal"].q = &fracSRI, 0);
 using namespace IMATH_INTERNAL_NAMESPACE;
 #include "ops_c10c.h"
-int main (int argc, char** argv) { return symns::sym_main (argc, argv); }
+// Directed translator validation (audit W8): the generic TV inputs reach the antipodal fallback only by coincidence.  Here `to` is
+// built from `from`: exactly opposite (to = -m from, exact in T), opposite within a few eps (threshold sub-case of the fallback),
+// nearly opposite (split path) -- with `from` chosen so that each of the fallback's axis choices occurs -- and the tree is
+// compared with the real code bit for bit as in `tv`.  Prints  TVDIR <entry> evals= failures= leaves_hit= paths=  lines.
+template <class T> static void directedTV (const char* name, void (*body) (symns::Ctx<T>&), bool withQuat, unsigned long seed, int n,
+                                           std::set<size_t>& hit, long& evals, long& bad)
+{
+    using namespace symns;
+    auto fi = fnIndex ().find (name);
+    if (fi == fnIndex ().end ()) return;
+    std::mt19937_64 g (seed);
+    std::uniform_real_distribution<double> U (-1.0, 1.0);
+    static const double mags[][3] = {{3, 2, 1}, {1, 2, 3}, {2, 3, 1}, {2, 1, 0}, {0, 1, 2}, {1, 0, 0}, {0, 1, 0}, {0, 0, 1}, {1, 1, 0}, {1, 1, 1}, {1, 3, 2}, {3, 1, 2}};
+    static const double ms[] = {1, 2, 0.5, 3, 4};
+    const double eps = (double) std::numeric_limits<T>::epsilon ();
+    for (int k = 0; k < n; ++k)
+    {
+        double f[3];
+        if (k % 3 == 0) for (int j = 0; j < 3; ++j) f[j] = U (g) * std::pow (10.0, (double) ((int) (g () % 5) - 2));
+        else { const double* m = mags[g () % 12]; for (int j = 0; j < 3; ++j) f[j] = m[j] * ((g () & 1) ? 1 : -1) * (k % 3 == 2 ? 0.37 : 1); }
+        if (f[0] == 0 && f[1] == 0 && f[2] == 0) f[0] = 1;
+        T fT[3] = {(T) f[0], (T) f[1], (T) f[2]}, tT[3];
+        int mode = (k / 3) % 5; // 0 exactly opposite, 1 within a few eps, 2 ~40 eps off, 3 1e-2 off (split), 4 same side (one step)
+        double m = ms[g () % 5];
+        double pert = mode == 0 ? 0 : mode == 1 ? 3 * eps : mode == 2 ? 40 * eps : 1e-2; // relative size of the sideways perturbation
+        double L = std::sqrt ((double) fT[0] * fT[0] + (double) fT[1] * fT[1] + (double) fT[2] * fT[2]);
+        for (int j = 0; j < 3; ++j) tT[j] = (T) (-m * ((double) fT[j] + pert * L * U (g)));
+        if (mode == 4) for (int j = 0; j < 3; ++j) tT[j] = (T) (m * ((double) fT[j] + 0.3 * L * U (g)));
+        if (mode == 0) for (int j = 0; j < 3; ++j) tT[j] = (T) (-(T) m * fT[j]); // exact multiples (m is a power of two or 3: exact or once rounded, still parallel to within rounding)
+        std::vector<T> in;
+        if (withQuat) for (int j = 0; j < 4; ++j) in.push_back ((T) U (g));
+        for (int j = 0; j < 3; ++j) in.push_back (fT[j]);
+        for (int j = 0; j < 3; ++j) in.push_back (tT[j]);
+        std::string d;
+        size_t leaf = (size_t) -1;
+        ++evals;
+        bool ok = tvOne<T> (*fi->second, body, in, d, &leaf);
+        if (leaf != (size_t) -1) hit.insert (leaf);
+        if (!ok)
+        {
+            ++bad;
+            printf ("TVFAIL %s %s :: %s :: in=", sizeof (T) == 4 ? "float" : "double", name, d.c_str ());
+            for (auto& x : in) printf ("%.17g ", (double) x);
+            printf ("\n");
+        }
+    }
+}
+int main (int argc, char** argv)
+{
+    if (argc > 1 && std::string (argv[1]) == "tvdir")
+    {
+        // explore the entries (fills fnIndex); index files of the callees as given
+        std::vector<char*> av (argv, argv + argc);
+        av[1] = (char*) "quiet";
+        symns::sym_main ((int) av.size (), av.data ()); // unknown mode: explores, prints nothing
+        unsigned long seed = argc > 2 ? strtoul (argv[2], 0, 10) : 1;
+        int n = argc > 3 ? atoi (argv[3]) : 600;
+        long bad = 0;
+        {
+            std::set<size_t> hit; long ev = 0, b = 0;
+            directedTV<double> ("C10.Quat.setRotationMod", &X_q_setRotationMod::run<double>, true, seed * 7 + 1, n, hit, ev, b);
+            directedTV<float> ("C10.Quat.setRotationMod", &X_q_setRotationMod::run<float>, true, seed * 7 + 2, n, hit, ev, b);
+            printf ("TVDIR C10.Quat.setRotationMod evals=%ld failures=%ld leaves_hit=%zu paths=%zu\n", ev, b, hit.size (), symns::fnIndex ()["C10.Quat.setRotationMod"]->paths.size ());
+            bad += b;
+        }
+        {
+            std::set<size_t> hit; long ev = 0, b = 0;
+            directedTV<double> ("C10.rotationMatrixMod", &X_a_rotationMatrixMod::run<double>, false, seed * 7 + 3, n, hit, ev, b);
+            directedTV<float> ("C10.rotationMatrixMod", &X_a_rotationMatrixMod::run<float>, false, seed * 7 + 4, n, hit, ev, b);
+            printf ("TVDIR C10.rotationMatrixMod evals=%ld failures=%ld leaves_hit=%zu paths=%zu\n", ev, b, hit.size (), symns::fnIndex ()["C10.rotationMatrixMod"]->paths.size ());
+            bad += b;
+        }
+        return bad ? 1 : 0;
+    }
+    return symns::sym_main (argc, argv);
+}
